@@ -22,7 +22,9 @@ RULE = ('A scenario = (allowed set: None/all, singleton, pair, '
         'name; version object missing; protocol key missing; empty object; '
         'close without reply), entry point (connect, or status() with each '
         'of default / custom / disabled status and latency handlers), host '
-        'and port. Oracle = reference decision function + reference decoding '
+        'and port; plus a complete sweep of every version id in the records '
+        'as the single allowed / the default version (accepted iff that '
+        'record is marked supported). Oracle = reference decision function + reference decoding '
         'of the client\'s frames by the scripted server: construction errors '
         '(N1), number of TCP connections and first frames (N2), every '
         'handshake carries chosen protocol, host, port and next state, login '
@@ -500,6 +502,41 @@ def t_every_other_number(ctx):
                         'unusual integers as the server answer')
 
 
+def t_every_name(ctx, lo, hi):
+    """every version id in the records, given as the single allowed version
+    and as the default version: accepted exactly when that record is marked
+    supported (an unsupported id is refused even when its protocol number is
+    shared with a supported id); an accepted name connects with its number"""
+    import minecraft
+    recs = list(minecraft.KNOWN_MINECRAFT_VERSION_RECORDS)[lo:hi]
+    sup, names, known = tables()
+    for r in recs:
+        if r.supported:
+            idx = names[r.protocol].index(r.id)
+            reply = {'kind': 'proto', 'protocol': r.protocol, 'name': None,
+                     'json': json.dumps({'version': {'protocol': r.protocol}})}
+            scenario_case(ctx, {'allowed': [(r.protocol, idx)],
+                                'default': None, 'reply': reply,
+                                'entry': 'connect', 'username': 'u'})
+            other = sup[0] if r.protocol != sup[0] else sup[1]
+            scenario_case(ctx, {'allowed': [(other, 'num'), (r.protocol, idx)],
+                                'default': (r.protocol, idx),
+                                'reply': {'kind': 'close', 'json': None,
+                                          'mode': 'close'},
+                                'entry': 'connect', 'username': 'u'})
+        else:
+            scenario_case(ctx, {'allowed': [(sup[-1], 'num')], 'bad': r.id,
+                                'default': None, 'reply': {'kind': 'any',
+                                                           'json': '{}'},
+                                'entry': 'connect', 'username': 'u'})
+            scenario_case(ctx, {'allowed': None, 'bad_default': True,
+                                'default': (r.id, 'raw'),
+                                'reply': {'kind': 'any', 'json': '{}'},
+                                'entry': 'connect', 'username': 'u'})
+    ctx.exhaustive_done('every version id of the records as allowed version '
+                        'and as default version')
+
+
 def t_status_modes(ctx):
     sup, names, known = tables()
     for hs in ('default', 'fn', 'false'):
@@ -538,6 +575,11 @@ def tasks(tier):
     for i in range(nsh):
         tl.append(('every_protocol_%d' % i, t_every_protocol,
                    dict(lo=n * i // nsh, hi=n * (i + 1) // nsh)))
+    import minecraft
+    nr = len(minecraft.KNOWN_MINECRAFT_VERSION_RECORDS)
+    for i in range(3):
+        tl.append(('every_name_%d' % i, t_every_name,
+                   dict(lo=nr * i // 3, hi=nr * (i + 1) // 3)))
     for i in range(8 if q else 14):
         tl.append(('random_%d' % i, t_random, dict(n=250 if q else 4000)))
     return tl
